@@ -59,6 +59,33 @@ func c13Check(w *df.VerifFlowWorld) {
 func Harness_C13_shared_cell() {
 	share := verifPick("share", 0, 4)
 	first := verifPick("share-before-store", 0, 1) == 1
-	w := df.VerifBuildFlowProgram(share, first, -1, 0)
+	storeForm := verifPick("store-form", 0, 3)
+	w := df.VerifBuildFlowProgram(share, first, -1, 0, storeForm, -1, 0)
+	c13Check(w)
+}
+
+// the source's value travels through a transport before it is stored into the shared cell
+func Harness_C13_data_through_transport() {
+	t := verifPick("transport", 0, 26)
+	variant := verifPick("variant", 0, 1)
+	first := verifPick("share-before-store", 0, 1) == 1
+	share := 0
+	if verifTier() > 0 {
+		share = verifPick("share", 0, 4)
+	}
+	w := df.VerifBuildFlowProgram(share, first, t, variant, 0, -1, 0)
+	c13Check(w)
+}
+
+// the address of the shared cell travels through a transport before main writes the source's value through it
+func Harness_C13_cell_through_transport() {
+	t := verifPick("transport", 0, 26)
+	variant := verifPick("variant", 0, 1)
+	first := verifPick("share-before-store", 0, 1) == 1
+	storeForm := 0
+	if verifTier() > 0 {
+		storeForm = verifPick("store-form", 0, 1)
+	}
+	w := df.VerifBuildFlowProgram(0, first, -1, 0, storeForm, t, variant)
 	c13Check(w)
 }
